@@ -434,7 +434,30 @@ func c08R5(c *Ctx, rule string) {
 				return false, 0
 			}),
 			engine.Event("applied", c.P.IsCallTo(engine.Is("iface:BatchingFSM.ApplyBatch"))),
+			engine.PredCond("haveSends", func(cd engine.Cond) (bool, int) {
+				if cd.IsRel && strings.HasPrefix(cd.X, "len(phi(append(") && cd.Y == "0" {
+					switch cd.EdgeOrd(true) {
+					case engine.GT, engine.LT | engine.GT:
+						return true, engine.True
+					case engine.EQ:
+						return true, engine.False
+					}
+				}
+				return false, 0
+			}),
 		}})
+		// no future of the batch is answered before the batch was handed to the
+		// FSM: a Barrier (not sent itself) must not overtake the commands before it
+		nResp := 0
+		for _, s := range c.P.CallsIn(ab, engine.Is("(*deferError).respond")) {
+			nResp++
+			c.RequireAt(r, rule, "applyBatch:answers-only-after-the-batch-was-applied", s.Instr, "every future of the batch – also of entries that are not sent to the FSM – is answered after ApplyBatch returned (or when nothing had to be sent)", func(v engine.View) bool {
+				return v.Seen("applied") || v.F("haveSends")
+			})
+		}
+		if nResp == 0 {
+			c.Bad(rule, "applyBatch:answers", c.P.Pos(ab.Pos()), "a respond call", "none")
+		}
 		nApp := 0
 		engine.EachInstr(ab, func(in ssa.Instruction) {
 			cc := engine.CallCommonOf(in)
